@@ -106,10 +106,10 @@ UNPROVED = (
     "(fullPlatform_false); explored by correspondence only. The theorems of Props/C05.lean are about "
     "Parsed records; Props/C05Whole.lean transports them to STRINGS for the modelled parser: for every string whose cleaned, "
     "resolved form is in the grammar class of Lemmas/NormBridge.lean (scheme prefix / '//' / nothing, userinfo without /?#[], "
-    "bracket-free host, port text, absolute path, query, fragment) the result tuple is normParts of the record whose fields are "
+    "host name or bracketed IP literal, port text, absolute path, query, fragment) the result tuple is normParts of the record whose fields are "
     "the pieces of the string (normalize_string_split), hence host / port / path / query are deletions of the pieces "
     "(normalize_only_deletes_string); an unparseable string is returned unchanged (normalize_unparseable_string: every string). "
-    "Outside the class (IPv6 literals, relative paths) and for the real parser: correspondence (norm_parts with the shipped "
+    "Outside the class (relative paths, brackets in the userinfo) and for the real parser: correspondence (norm_parts with the shipped "
     "Parsed, normalize_whole with the modelled parser) + oracle. Totality is by the model's "
     "type (no error value); that the implementation never raises is checked by correspondence and the oracle."
 )
